@@ -3,6 +3,8 @@ import RpcVerif.Model.Wire
 import RpcVerif.Model.ConnRun
 import RpcVerif.Model.PoolRun
 import RpcVerif.Model.ServerRun
+import RpcVerif.Model.Spec
+import RpcVerif.Model.Framing
 /-
   rpcmodel — the executable side of the correspondence. Reads one operation per line on
   stdin, prints one canonical result line per operation. Imports Model/ only (core Lean).
@@ -73,6 +75,20 @@ def wireStep (toks : List String) : String :=
     | _, _, _ => "bad-op"
   | _ => "bad-op"
 
+/-- framing differential: `wr <hex>` → the framed bytes; `rd <hex,hex,…>` (chunks) → the messages read and the residue -/
+def frameStep (toks : List String) : String :=
+  match toks with
+  | ["wr", m] => match bytesOfHex m with
+    | some m => "ok " ++ hexOfBytes (RpcVerif.Framing.frame m)
+    | none => "bad-op"
+  | ["rd", cs] =>
+    let parts := (cs.splitOn ",").map bytesOfHex
+    if parts.any (·.isNone) then "bad-op" else
+    let chunks := parts.filterMap id
+    let (ms, rest) := RpcVerif.Framing.readAll chunks
+    "ok " ++ ",".intercalate (ms.map hexOfBytes) ++ " rest=" ++ hexOfBytes rest
+  | _ => "bad-op"
+
 partial def loop (h : IO.FS.Stream) (out : IO.FS.Stream) (step : List String → String) : IO Unit := do
   let line ← h.getLine
   if line.isEmpty then return ()
@@ -94,4 +110,6 @@ def main (args : List String) : IO UInt32 := do
   | ["conn"] => loopSt stdin stdout RpcVerif.K.connStep none; return 0
   | ["pool"] => loopSt stdin stdout RpcVerif.P.poolStep none; return 0
   | ["server"] => loopSt stdin stdout RpcVerif.S.serverStep none; return 0
+  | ["e2e"] => loop stdin stdout RpcVerif.Spec.specStep; return 0
+  | ["frame"] => loop stdin stdout frameStep; return 0
   | _ => IO.eprintln "usage: rpcmodel wire"; return 2
